@@ -11,7 +11,7 @@ CHECK = {
                             "auto_anchor_geodetic", "auto_anchor_wgs84", "auto_anchor_after_reset",
                             "reanchor_without_reset", "reanchor_within_1m", "anchor_lon_exact_pi",
                             "anchor_antimeridian_near", "anchor_lat_limit", "anchor_south", "anchor_west",
-                            "scalar_overloads"],
+                            "scalar_overloads", "history_long_setanchor_run", "history_long_conversion_run"],
     "required_oracles": ["state.is_anchored", "anchor.get_anchor", "transform.orthonormal", "transform.det_plus_one",
                          "axes.first_is_east_rad", "axes.second_is_north_rad", "axes.third_is_up_rad",
                          "transform.translation_is_anchor_ecef_m", "origin.anchor_maps_to_zero_m",
@@ -24,7 +24,8 @@ CHECK = {
     "required_counters": ["loop_hook_calls", "operations", "conversions", "op_reset", "op_setAnchor",
                           "op_ENUConverter()", "op_ENUConverter(anchor)", "op_toENU(geodetic)", "op_toENU(wgs84)",
                           "op_toENU(ecef)", "op_toECEF", "op_toWGS84", "op_getEnuToEcefTransform",
-                          "wgs84_auto_anchor_altitude_adopted"],
+                          "wgs84_auto_anchor_altitude_adopted",
+                          "long_run_setAnchor_calls", "long_run_conversion_calls"],
     "rule": "case = one HISTORY of 5..40 operations on one ENUConverter, drawn from {ENUConverter(), ENUConverter(anchor), "
             "copy, setAnchor, setAnchor(getAnchor()), reset, toENU(geodetic) [auto-anchors when un-anchored], toENU(wgs84) "
             "[idem], toENU(ecef), toECEF (both overloads), toWGS84 (both overloads), isAnchored, getEnuToEcefTransform, "
@@ -35,15 +36,20 @@ CHECK = {
             "nextafter neighbours, log offsets 1e-15..1e-3 rad from +-pi and 0, 0/+-90 deg), h in [-500,9000] m with the ends; "
             "re-anchors far away, 1e-6 m..1 km from an earlier anchor, or back on an earlier anchor; local points <=100 km "
             "horizontally / 10 km vertically incl. zero, axis points (d,0,0),(0,d,0),(0,0,d), the 100 km / 10 km limits and "
-            "sub-millimetre points; distinct = 64-bit hash of the operation sequence with all its numeric arguments; "
+            "sub-millimetre points; very long histories on one object (state 2^8 / 2^16 operations wide): the case indices "
+            "17 and 4113 modulo 8191 carry, inside such a history, a run of 66000..70000 setAnchor calls alternating between 2-3 "
+            "anchors (isAnchored() compared after every call, frame + one conversion every 4096 calls and around the 255..257th / "
+            "65535..65537th anchoring since the converter was last un-anchored) resp. 66000..70000 fully checked conversions, "
+            "each followed by one pass over every per-operation oracle (300..600 calls under valgrind); distinct = 64-bit hash of the operation sequence with all its numeric arguments; "
             "non-trivial = history with >=1 reset or re-anchoring of an anchored converter and >=3 conversions",
-    "level_text": "exploration: 2e4 (quick) / 1e6 (thorough) generated operation histories are executed on the real ENUConverter "
+    "level_text": "exploration: 1e5 (quick) / 1e6 (thorough) generated operation histories are executed on the real ENUConverter "
                   "in lock step with a sequential model; after every operation isAnchored() is compared with the model, after every "
                   "(re-)anchoring the frame transform is compared with long-double east/north/up directions obtained by numerical "
                   "differentiation of the geodetic->ECEF definition (orthonormality and det=+1 to 16 eps, axes to 1e-9 rad), every conversion is compared "
                   "with the model frame, with its inverse conversions (1 mm) and with a fresh converter anchored at the same place "
                   "(1e-9 m), distances of point pairs are compared across frames; ASan+UBSan and the library's asserts watch the "
-                  "same executions",
+                  "same executions; about one history in 4000 contains a run of > 65536 setAnchor calls or conversions on one "
+                  "object (counter-width class)",
     "level_note": ASAN_NOTE,
     "technique": "runtime monitoring: sanitizer build + lock-step sequential reference model + long-double oracle over generated "
                  "operation histories",
